@@ -90,3 +90,51 @@ def build2(m):
                            ('implies(self.normalize_whitespace, len(arg_first_line_prefix) == len(token.leader) + 1 and '
                             'len(some(arg_following_line_prefix)) == len(token.leader) + 1)', 'C10')]},
                    prop=['C10', 'C09']))
+
+
+def build3(m):
+    """token.py: the children setter stamps the parent link (C12)."""
+    TK = TRef('TokenObj')
+    m.classes['TokenObj'] = {'_children': TList(TK), '_parent': TOpt(TK)}
+    m.namespaces['mistletoe.token'] = m.namespaces.get('mistletoe.token', {})
+    m.add(Contract('mistletoe.token:Token.children@2', [('self', TK), ('value', TList(TK))],
+                   ensures=[('forall(lambda i: value[i]._parent == self, 0, len(value))', 'C12'),
+                            ('same(self._children, value)', 'C12')],
+                   modifies=['self._children', 'F:TokenObj._parent'],
+                   loops={0: Loop(invariant=['forall(lambda i: value[i]._parent == self, 0, _k0)',
+                                             'same(self._children, value)'])},
+                   prop=['C12']))
+
+
+def build4(m):
+    """utils.traverse: every yielded (node, parent, depth) names a real child of its parent at its
+    true depth (C12)."""
+    TN = TRef('TNode')
+    m.classes['TNode'] = {'children': TOpt(TList(TN)), 'gdepth': INT, 'gparent': TN}
+    m.classes['Klass'] = {}
+    m.namespaces['mistletoe.utils'] = {'TraverseResult': ('tuple_ctor', 'TraverseResult')}
+    # gparent: ghost parent link of the tree (every listed child has exactly the parent that lists it)
+    m.predicate('CHILD_OF', ['c', 'p'], 'c.gparent == p')
+    # gdepth: ghost level of a node below the traversal source (exists for every tree)
+    m.predicate('TREE_DEPTH', [], "forall_ref('TNode', lambda p: implies(not is_none(p.children), "
+                                  "forall(lambda i: some(p.children)[i].gdepth == p.gdepth + 1 and some(p.children)[i].gparent == p, 0, len(some(p.children)))))")
+    PAIRS_OK = ('forall(lambda j: %s[j][1].gdepth == %s and CHILD_OF(%s[j][1], %s[j][0]), 0, len(%s))')
+    m.add(Contract('mistletoe.utils:traverse',
+                   [('source', TN), ('klass', TOpt(TRef('Klass')), NONE_VAL), ('depth', TOpt(INT), NONE_VAL),
+                    ('include_source', BOOL, mk_bool(False))], returns=None,
+                   requires=['TREE_DEPTH()', 'source.gdepth == 0', 'is_none(depth) or some(depth) >= 0'],
+                   options={'concat_axioms': True, 'tier': 'thorough'},
+                   yield_type=TTuple([TN, TOpt(TN), INT]),
+                   yield_asserts=[('yielded[2] == yielded[0].gdepth', 'C12'),
+                                  ('is_none(yielded[1]) or CHILD_OF(yielded[0], some(yielded[1]))', 'C12'),
+                                  ('implies(is_none(yielded[1]), yielded[0] == source)', 'C12'),
+                                  ('implies(not is_none(depth), yielded[2] <= some(depth))', 'C12')],
+                   body_types={'next_children': TList(TTuple([TN, TN])), 'new_children': TList(TTuple([TN, TN]))},
+                   loops={
+                       0: Loop(invariant=['current_depth >= 0',
+                                          PAIRS_OK % ('next_children', 'current_depth + 1', 'next_children', 'next_children', 'next_children')]),
+                       1: Loop(invariant=['current_depth >= 1',
+                                          'implies(not is_none(depth), current_depth <= some(depth))',
+                                          PAIRS_OK % ('next_children', 'current_depth', 'next_children', 'next_children', 'next_children'),
+                                          PAIRS_OK % ('new_children', 'current_depth + 1', 'new_children', 'new_children', 'new_children')]),
+                   }, prop=['C12']))
